@@ -226,7 +226,7 @@ def default_passes(h):
     return list(h.elab.Elaborator.default().passes)
 
 
-def make_boundary_fault(h, module_obj, label, counter, dirty=False):
+def make_boundary_fault(h, module_obj, label, counter, dirty=False, abort=False):
     """A fresh `ElabPass` subclass (own done-set) that raises when it visits `module_obj`
     (visit order is the pass's own depth-first order).  `dirty`: it is a *rewriting* pass that
     fails half-way: one signal of the module has been widened by a bit when the exception is
@@ -242,6 +242,9 @@ def make_boundary_fault(h, module_obj, label, counter, dirty=False):
                     if victims:
                         victims[0].width = victims[0].width + 1
                         counter["dirty_rewrite"] = counter.get("dirty_rewrite", 0) + 1
+                if abort:  # the pass is interrupted rather than failing (KeyboardInterrupt style)
+                    counter["aborted"] = counter.get("aborted", 0) + 1
+                    raise InjectedAbort(f"injected interruption {label}")
                 raise InjectedFault(f"injected fault {label}")
             return module
 
